@@ -27,6 +27,7 @@ import (
 	"encoding/hex"
 	"fmt"
 	"math"
+	"math/big"
 	"math/rand"
 	"strconv"
 	"strings"
@@ -1690,6 +1691,84 @@ func boundaryShapes(g *core.G) {
 	}
 }
 
+// ---- wrap-around distances ---------------------------------------------------------------------------------------
+//
+// Every fixed-width numeric payload of a key (integer, float bits, timespan seconds, timestamp seconds / nanoseconds) is
+// paired with the values that lie 2^8, 2^16, 2^32, 2^63 and 2^64 units away, in every unit the value can be expressed in
+// (bits; nanoseconds and seconds for the two time kinds), from bases that include the ends of the int64 range and
+// instants far outside the range of UnixNano (years 1, 1400, 1677, 2262, 2300, 9999).  Distinct values at such a distance
+// get the same bytes when a payload is truncated, re-based to another unit or computed in wrapping arithmetic.
+
+var wrapDistances = []uint{8, 16, 32, 63, 64}
+
+func inInt64(x *big.Int) bool { return x.IsInt64() }
+
+func wrapPairs(g *core.G) {
+	emit := func(a, b sx.Sexp) {
+		if a.String() == b.String() {
+			return
+		}
+		boundaryPair(g, a, b)
+		boundaryPair(g, av(a, iv(1)), av(b, iv(1)))
+	}
+	one := big.NewInt(1)
+	dists := func() []*big.Int {
+		out := []*big.Int{}
+		for _, k := range wrapDistances {
+			d := new(big.Int).Lsh(one, k)
+			out = append(out, d, new(big.Int).Neg(d))
+		}
+		return out
+	}()
+	// integers (unit 1) and timespans (units ns and s)
+	for _, base := range []int64{0, 1, -1, 5, math.MinInt64, math.MaxInt64, -(1 << 62), 1 << 62, 1500000000, -1500000000} {
+		for _, d := range dists {
+			if v := new(big.Int).Add(big.NewInt(base), d); inInt64(v) {
+				emit(iv(base), iv(v.Int64()))
+				emit(sx.T("ts", sx.Int(base)), sx.T("ts", sx.Int(v.Int64())))
+			}
+			if v := new(big.Int).Add(big.NewInt(base), new(big.Int).Mul(d, big.NewInt(1000000000))); inInt64(v) {
+				emit(sx.T("ts", sx.Int(base)), sx.T("ts", sx.Int(v.Int64())))
+			}
+		}
+	}
+	// float bit patterns (unit: one bit pattern step), NaN patterns left out
+	for _, base := range []uint64{0, 1 << 63, math.Float64bits(1), math.Float64bits(-1), math.Float64bits(5e-324), math.Float64bits(math.MaxFloat64), math.Float64bits(1e300)} {
+		for _, k := range []uint{8, 16, 32, 63} {
+			for _, v := range []uint64{base + 1<<k, base - 1<<k, base ^ 1<<k} {
+				f := math.Float64frombits(v)
+				if f == f {
+					emit(sx.T("f", sx.A(strconv.FormatUint(base, 10))), sx.T("f", sx.A(strconv.FormatUint(v, 10))))
+				}
+			}
+		}
+	}
+	// timestamps: (seconds, nanoseconds) from bases inside and far outside 1677..2262, at distances in ns and in s
+	year := func(y int) int64 { return time.Date(y, 1, 1, 0, 0, 0, 0, time.UTC).Unix() }
+	billion := big.NewInt(1000000000)
+	tm := func(total *big.Int) (sx.Sexp, bool) { // total nanoseconds since the epoch → (tm secs nanos)
+		secs, nanos := new(big.Int).DivMod(total, billion, new(big.Int)) // Euclidean: 0 <= nanos < 1e9
+		if !secs.IsInt64() || secs.Int64() > 1<<61 || secs.Int64() < -(1<<61) {
+			return sx.Sexp{}, false
+		}
+		return sx.T("tm", sx.Int(secs.Int64()), sx.Int(nanos.Int64())), true
+	}
+	for _, bs := range []int64{0, 1, -1, year(1), year(1400), year(1677), year(1970), year(2020), year(2262), year(2300), year(9999)} {
+		for _, bn := range []int64{0, 1, 500000000, 999999999} {
+			total := new(big.Int).Add(new(big.Int).Mul(big.NewInt(bs), billion), big.NewInt(bn))
+			a, _ := tm(total)
+			for _, d := range dists {
+				if b, ok := tm(new(big.Int).Add(total, d)); ok { // d nanoseconds away
+					emit(a, b)
+				}
+				if b, ok := tm(new(big.Int).Add(total, new(big.Int).Mul(d, billion))); ok { // d seconds away
+					emit(a, b)
+				}
+			}
+		}
+	}
+}
+
 func gen(g *core.G) {
 	r := g.Rng
 	u := universe()
@@ -1762,6 +1841,8 @@ func gen(g *core.G) {
 	}
 	// length-field boundaries with their regrouped / forged counterparts
 	boundaryShapes(g)
+	// fixed-width payloads at wrap-around distances
+	wrapPairs(g)
 	// 2. structured random cases: related pairs on purpose
 	n := 2500 * g.Scale
 	for i := 0; i < n; i++ {
